@@ -281,7 +281,7 @@ func histories(w *hc.W) {
 		if !isX11 {
 			// codes a conforming terminal rarely sends but the quantifier contains: a release
 			// naming no button, a release final on a wheel code, horizontal wheel, "press" of no button
-			ops = append(ops, hop{name: "release3", code: 3, rel: true}, hop{name: "wheel-up-m", code: 64, rel: true}, hop{name: "wheel-left", code: 66}, hop{name: "press3", code: 3})
+			ops = append(ops, hop{name: "release3", code: 3, rel: true}, hop{name: "wheel-up-m", code: 64, rel: true}, hop{name: "wheel-left", code: 66}, hop{name: "press3", code: 3}, hop{name: "wheel-right", code: 67}, hop{name: "wheel-right-m", code: 67, rel: true})
 		}
 		ops = append(ops, hop{name: "motion-none", code: 35}, hop{name: "wheel-up", code: 64}, hop{name: "wheel-down", code: 65},
 			hop{name: "press0+shift", code: 4}, hop{name: "drag0+ctrl", code: 32 + 16, needDn: isX11})
